@@ -377,3 +377,32 @@ Proof.
   intro H. unfold sstep. sproj. destruct (s_kpc st d); [| | |destruct (s_done st) eqn:E; [|destruct timeout]]; sproj;
     repeat split; auto.
 Qed.
+
+Lemma fence_rt c evs x s :
+  In x (s_subs (srun c evs)) -> hb_acc x = true -> In s (s_stops (srun c evs)) -> hb_t0 x <= hp_t1 s.
+Proof. exact (i_fence c _ (sinv_run c evs) x s). Qed.
+
+Lemma stop_after_terminal c evs s x :
+  In s (s_stops (srun c evs)) -> hp_ok s = true -> In x (s_subs (srun c evs)) -> hb_acc x = true ->
+  exists e, In e (s_terms (srun c evs)) /\ ht_task e = hb_task x /\ ht_t e < hp_t1 s.
+Proof. exact (i_stopped c _ (sinv_run c evs) s x). Qed.
+
+Lemma terminal_once c evs :
+  NoDup (map ht_task (s_terms (srun c evs)))
+  /\ forall e, In e (s_terms (srun c evs)) ->
+       exists x, In x (s_subs (srun c evs)) /\ hb_task x = ht_task e /\ hb_acc x = true.
+Proof.
+  split; [exact (i_term_nodup c _ (sinv_run c evs))|].
+  intros e He. exact (proj2 (i_term_fin c _ (sinv_run c evs) e He)).
+Qed.
+
+Lemma runtime_stop_refuted :
+  exists c evs e, sc_cod c = true /\ In e (s_terms (srun c evs)) /\ ht_res e = RCancel
+                  /\ smonitor 3 true (shist_of (srun c evs)) = 2.
+Proof.
+  exists (SCfg 2 true),
+         [SSubmit 0; STask 0 ROk; SSubmit 1; STask 1 ROk; SStopCall 0; SStop 0 false; SStop 0 false;
+          SStop 0 true; STask 0 RCancel; STask 1 RCancel; SDrainer],
+         (HTerm 0 9 RCancel).
+  vm_compute. repeat split; try reflexivity. left. reflexivity.
+Qed.
